@@ -138,3 +138,19 @@ def replay_choice(p):
     if "not_raises" in exp:
         return {"reproduced": o[0] != "value", "expected": "returns an element", "observed": show(o)}
     raise ValueError("bad expected")
+
+
+@register("aligned_lists")
+def replay_aligned_lists(p):
+    """The population / weights lists handed to the choice function must be the declared
+    groups and weights, position by position (value and type)."""
+    fields = {k: dec(v) for k, v in p["fields"].items()}
+    o, calls = _record_choice_calls(p["text"], fields)
+    want_pop, want_w = dec(p["population"]), dec(p["weights"])
+    if not calls:
+        return {"reproduced": True, "expected": "choice over %r" % (want_pop,), "observed": "no choice; " + show(o)}
+    pop, w = calls[0]["population"], calls[0]["weights"]
+    ok = (len(pop) == len(want_pop) and all(type(a) is type(b) and a == b for a, b in zip(pop, want_pop)) and
+          w is not None and len(w) == len(want_w) and all(a == b for a, b in zip(w, want_w)))
+    return {"reproduced": not ok, "expected": "population %r weights %r" % (want_pop, want_w),
+            "observed": "population %r weights %r" % (pop, w)}
